@@ -53,8 +53,12 @@ func New(session *packet.Session) (h *DNSHandler, err error) {
 }
 
 func (h *DNSHandler) Close() error {
-	h.DNSTable = nil
-	h.mdnsCache = nil
+	// the packet loop may still be processing a packet: take the lock, and leave empty maps
+	// rather than nil ones (storing into a nil map panics)
+	h.mutex.Lock()
+	defer h.mutex.Unlock()
+	h.DNSTable = make(map[string]packet.DNSEntry)
+	h.mdnsCache = make(map[string]cache)
 	return nil
 }
 
